@@ -1035,6 +1035,17 @@ func c12OrderPaired(c *Ctx, ri *registryInfo, accs []Access) {
 		construct := sprintf("append to %s in %s", a.Field, fname(fn))
 		guardedBy, other := false, ""
 		for _, g := range flow.Guards(fn, st.Block()) {
+			// `m[k] == nil` for a map of pointers whose entries are never nil says "not found" as well
+			if v, op, isNil := nilCompare(g.If.Cond); isNil {
+				if lk, ok := ir.Unwrap(v).(*ssa.Lookup); ok && !lk.CommaOk && (op == token.EQL) == g.Branch {
+					if fieldKeyOf(lk.X) == stored && samePath(lk.Index, key, 0) {
+						guardedBy = true
+					} else {
+						other = fieldKeyOf(lk.X)
+					}
+				}
+				continue
+			}
 			ex, ok := ir.Unwrap(g.If.Cond).(*ssa.Extract)
 			neg := false
 			if !ok {
